@@ -40,6 +40,7 @@ import (
 	evmtypes "github.com/palomachain/paloma/v2/x/evm/types"
 	schedtypes "github.com/palomachain/paloma/v2/x/scheduler/types"
 	skywaytypes "github.com/palomachain/paloma/v2/x/skyway/types"
+	vtypes "github.com/palomachain/paloma/v2/x/valset/types"
 	"github.com/palomachain/paloma/v2/zzverif/explore"
 	"github.com/palomachain/paloma/v2/zzverif/report"
 	"github.com/palomachain/paloma/v2/zzverif/world"
@@ -96,18 +97,20 @@ func main() {
 }
 
 func run(r *report.Run, shard, nshards int, replayFile string) {
-	r.Rule = "two BFS scenarios on the real handlers. A: Send/EndBlk50 (batch build)/EstimateQuorum (3 estimates + skyway end-blocker: election re-issues the checkpoint)/Confirm(v,batch) (genuine signature over the stored BytesToSign)/EndBlkLate (timeout)/ExecutedQuorum/Evidence(by, checkpoint, signer) with (checkpoint, signer) over every published checkpoint x every validator that signed it, over never-published checkpoints (mutated amount; mutated gas estimate) x every validator key and an outsider key, and over fabricated subjects whose BytesToSign FIELD is chosen by the accuser {sign-bytes of a turnstone queue message every validator signed via MsgAddMessagesSignatures, the latest published checkpoint, 32 bytes nobody issued} with the validators' genuine signatures over those bytes. B: Exec (job -> turnstone message)/EstimateQuorum/ErrorData/PublicData/Ev(v,proof) for every validator/ReEv(v,proof) (a validator that already attested re-submits the same or a corrected proof; at most 1 per history, thorough 2)/Prune (consensus module end-blocker at h = 0 mod 50, message older than 300 blocks). A state is distinct by (skyway store | consensus store, staking jailed flags, ghost)"
+	r.Rule = "two BFS scenarios on the real handlers. A: Send/EndBlk50 (batch build)/Rotate(v) (MsgAddExternalChainInfoForValidator with a second key; no snapshot rebuild; 1 rotation per history)/EstimateQuorum (3 estimates + skyway end-blocker: election re-issues the checkpoint)/Confirm(v,batch) (genuine signature over the stored BytesToSign)/EndBlkLate (timeout)/ExecutedQuorum/Evidence(by, checkpoint, signer) with (checkpoint, signer) over every published checkpoint x every validator that signed it, over never-published checkpoints (mutated amount; mutated gas estimate) x {every validator's currently registered key, its abandoned key once it rotated, a never-registered key}, and over fabricated subjects whose BytesToSign FIELD is chosen by the accuser {sign-bytes of a turnstone queue message every validator signed via MsgAddMessagesSignatures, the latest published checkpoint, 32 bytes nobody issued} with the validators' genuine signatures over those bytes. B: Exec (job -> turnstone message)/EstimateQuorum/ErrorData/PublicData/Ev(v,proof) for every snapshot validator and for vx, a bonded validator outside the snapshot/ReEv(v,proof) (a validator that already attested re-submits the same or a corrected proof; at most 1 per history; thorough: 2 in the 4-member vector)/Prune (consensus module end-blocker at h = 0 mod 50, message older than 300 blocks). A state is distinct by (skyway store | consensus store, staking jailed flags, ghost)"
 	r.Assumptions = []string{
 		"'published checkpoint' = every value the stored BytesToSign of any open batch took, sampled by the ghost after every operation together with the batch as it was then (the evidence subject)",
 		"a validator's signature over a published checkpoint becomes available to the accuser when the validator submits it (Confirm op, whether or not the chain accepts the confirm); signatures over never-published checkpoints are produced with the real keys directly (that is the misbehaviour the handler exists for)",
 		"weaker reading for unpublished evidence: the property only forbids jailing anybody but the registered owner of the recovered key; that such evidence does jail the signer is counted (unpublished_evidence_jailed) but not required",
 		"'bytes the chain issued for signing' = the published batch checkpoints plus the sign-bytes of the consensus-queue message (a SubmitLogicCall put there by a job execution during set-up, estimate elected, signed by all validators with MsgAddMessagesSignatures); one queued message type stands for all turnstone messages (UpdateValset is signed with the same key and scheme)",
+		"'registered key' = the key the validator has in the live external-chain-info registry at the moment the evidence is submitted (ghost: Rot flags, cross-checked against EvmKeeper.GetEthAddressByValidator after every rotation); a signature by an abandoned or never-registered key must not jail anybody; validators confirm and estimate with their current key",
 		"evidence over a published checkpoint must be rejected and must not flip any jailed flag; no other operation of scenario A may flip a jailed flag",
 		"quorum operations (estimates, claims) are macros of three validator messages + skyway end-blocker (vote interleavings are C02's subject)",
 		"scenario B prunes with the consensus module's own EndBlock (estimates, attestation, PruneOldMessages(300) at h%50==0) and not the whole module manager, so keep-alive jailing of x/valset (C12) cannot be confused with prune-time jailing; the blocks between hand-in of evidence and the prune height are empty",
 		"'fewer than 10% attested' is read as 10*shares(evidence suppliers in the snapshot) < total snapshot shares; at exactly 10% the property does not constrain jailing of non-suppliers",
 		"shares of suppliers are taken from the genesis stakes and cross-checked against the current snapshot; 'shares that attested' are the shares of the DISTINCT validators whose evidence the chain accepted (a validator re-submitting evidence attests once)",
-		"scenario B hands evidence in in ascending validator order, each validator once with proof A or (v2 and the last validator; thorough: all) the dissenting proof B: the prune-time code reads the evidence as a set (address look-ups, share sums, grouping by proof hash), so other hand-in orders reach the same decisions",
+		"every scenario-B world has one more bonded validator vx without a chain account, hence outside the valset snapshot (0 snapshot shares); the chain accepts its evidence; in the 4-member vector vx attests at any position of the hand-in order (thorough: also first, before every member, in the 6-member vectors); its evidence counts for nothing in 'shares that attested'",
+		"scenario B hands evidence of snapshot members in in ascending validator order, each validator once with proof A or (v2 and the last validator; thorough: all) the dissenting proof B: the prune-time code reads the evidence as a set (address look-ups, share sums, grouping by proof hash), so other hand-in orders reach the same decisions",
 		"validators with more than 25% of the bonded power (the last validator of each scenario-B stake vector) cannot be jailed by x/valset at all; the others are jailable",
 		"scenario B runs once per stake vector (totals 30 000 000, 30 000 009 and 19 000 001 shares; a snapshot share is a bonded token and a bonded validator needs at least 10^6, so smaller totals are unreachable), one worker process each; the 10% rule is evaluated literally with big integers: nobody may be jailed when 10*votes < total",
 		"the A_*/B_* counters are per-worker sums (operations of the two shared prefix levels are counted once per worker); states/transitions are exact",
@@ -153,6 +156,10 @@ func run(r *report.Run, shard, nshards int, replayFile string) {
 		spec.Shard, spec.NShards = 0, 1
 	}
 	spec.ShardDepth = 2
+	if scenario == "evidence" {
+		// the first levels of scenario A are narrow (Send, EndBlk50, Rotate): shard deeper
+		spec.ShardDepth = 4
+	}
 	if nshards <= nB {
 		spec.Shard, spec.NShards = 0, 1
 	}
@@ -220,13 +227,14 @@ type pubCP struct {
 
 type ghostA struct {
 	Pub      []pubCP
-	Signed   map[string][]int // checkpoint hex -> validators that signed it (Confirm op)
+	Signed   map[string][]int // checkpoint hex -> key ids that signed it (Confirm op)
+	Rot      []bool           // validator re-registered with its second key (live registry)
 	Sends    int
 	Skynonce uint64
 }
 
 func (g *ghostA) Clone() explore.Ghost {
-	n := &ghostA{Pub: append([]pubCP{}, g.Pub...), Signed: map[string][]int{}, Sends: g.Sends, Skynonce: g.Skynonce}
+	n := &ghostA{Pub: append([]pubCP{}, g.Pub...), Signed: map[string][]int{}, Sends: g.Sends, Skynonce: g.Skynonce, Rot: append([]bool{}, g.Rot...)}
 	for k, v := range g.Signed {
 		n.Signed[k] = append([]int{}, v...)
 	}
@@ -252,11 +260,67 @@ type envA struct {
 	submitters []*world.Actor
 	outsider   *world.Val // an eth key that belongs to no validator
 	maxSends   int
+	maxRot     int
 	thorough   bool
+	// key ids: i < n = validator i's genesis eth key, n+i = validator i's second
+	// key (registered by Rotate(vi)), -1 = a key nobody ever registered
+	keys []*world.Val
 	// sign-bytes of a turnstone consensus-queue message (SubmitLogicCall) that
 	// every validator signed through MsgAddMessagesSignatures during set-up:
 	// bytes the chain issued for signing with the same key and the same scheme
 	queueBytes []byte
+}
+
+// key id helpers (see envA.keys)
+func (e *envA) key(id int) *world.Val {
+	if id < 0 {
+		return e.outsider
+	}
+	return e.keys[id]
+}
+
+func (e *envA) keyName(id int) string {
+	n := len(e.w.Vals)
+	switch {
+	case id < 0:
+		return "outsider"
+	case id < n:
+		return fmt.Sprintf("v%d", id)
+	default:
+		return fmt.Sprintf("v%d.key2", id-n)
+	}
+}
+
+// current is the key id validator i has registered right now (ghost = live registry).
+func (e *envA) current(g *ghostA, i int) int {
+	if g.Rot[i] {
+		return len(e.w.Vals) + i
+	}
+	return i
+}
+
+// registeredOwner returns the validator whose currently registered key id is, or -1.
+func (e *envA) registeredOwner(g *ghostA, id int) int {
+	for i := range e.w.Vals {
+		if e.current(g, i) == id {
+			return i
+		}
+	}
+	return -1
+}
+
+// keyIDs lists every key a signature may be made with in state g: each
+// validator's current key, its former key once it rotated, and the outsider.
+func (e *envA) keyIDs(g *ghostA) []int {
+	var out []int
+	for i := range e.w.Vals {
+		out = append(out, e.current(g, i))
+		if g.Rot[i] {
+			out = append(out, i)
+		}
+	}
+	sort.Ints(out)
+	return append(out, -1)
 }
 
 // issued tells whether the chain ever asked validators to sign these bytes:
@@ -329,14 +393,21 @@ func specA(r *report.Run) explore.Spec {
 		e.submitters = append(e.submitters, w.Vals[2].Actor)
 		e.maxSends = 3
 	}
+	e.maxRot = 1
+	for _, v := range w.Vals {
+		e.keys = append(e.keys, v)
+	}
+	for i := range w.Vals {
+		e.keys = append(e.keys, world.NewVal(fmt.Sprintf("v%d-second-key", i), sdkmath.NewInt(1)))
+	}
 	e.queueSetup(ctx)
 	spec := explore.Spec{
-		Name: "evidence", Init: []*explore.Node{{Ctx: ctx, Ghost: &ghostA{Signed: map[string][]int{}}}}, Ops: e.ops,
+		Name: "evidence", Init: []*explore.Node{{Ctx: ctx, Ghost: &ghostA{Signed: map[string][]int{}, Rot: make([]bool, len(w.Vals))}}}, Ops: e.ops,
 		Hash:     e.hash,
 		MaxDepth: 7, Deadline: r.Deadline(140*time.Second, 25*time.Minute),
 	}
 	if e.thorough {
-		spec.MaxDepth = 9
+		spec.MaxDepth = 8
 	}
 	if d, err := strconv.Atoi(os.Getenv("C13_DEPTH")); err == nil && d > 0 {
 		spec.MaxDepth = d // experiments only
@@ -421,11 +492,11 @@ func (e *envA) evidenceCases(g *ghostA) []evidenceCase {
 		must(err)
 		out = append(out, evidenceCase{tag: p.Tag, subject: &b, cp: cp, signers: g.Signed[p.Hex]})
 	}
-	vals := []int{}
+	vals := []int{} // genesis keys (they signed the queue message)
 	for i := range e.w.Vals {
 		vals = append(vals, i)
 	}
-	all := append(append([]int{}, vals...), -1)
+	all := e.keyIDs(g)
 	// fabricated subjects: the accuser chooses the 32 bytes in the BytesToSign
 	// field and attaches a signature a validator really made over those bytes
 	rnd := sha256.Sum256([]byte("c13: bytes nobody was asked to sign"))
@@ -436,6 +507,13 @@ func (e *envA) evidenceCases(g *ghostA) []evidenceCase {
 	out = append(out,
 		evidenceCase{tag: "fab(bts=queueMsg)", subject: e.fabricated(e.queueBytes), cp: e.queueBytes, signers: vals, fab: true},
 		evidenceCase{tag: "fab(bts=random)", subject: e.fabricated(rnd[:]), cp: rnd[:], signers: rndSigners, fab: true})
+	// a well-formed batch nobody ever built, no BytesToSign carried: its
+	// content-derived checkpoint was never issued
+	if fc := e.fabricated(nil); true {
+		cp, err := checkpointOf(fc)
+		must(err)
+		out = append(out, evidenceCase{tag: "fabContent", subject: fc, cp: cp, signers: all})
+	}
 	if len(g.Pub) == 0 {
 		return out
 	}
@@ -515,8 +593,8 @@ func (e *envA) ops(n *explore.Node) []explore.Op {
 		token := b.TokenContract.GetAddress().Hex()
 		if b.GasEstimate == 0 {
 			add(fmt.Sprintf("EstimateQuorum(b%d)", b.BatchNonce), false, func(ctx *sdk.Context, g *ghostA) *explore.Fail {
-				for _, v := range w.Vals {
-					res := w.DeliverTx(*ctx, []*world.Actor{v.Actor}, &skywaytypes.MsgEstimateBatchGas{Metadata: world.Meta(v.Actor), Nonce: b.BatchNonce, TokenContract: token, EthSigner: v.EthAddr(), Estimate: 21000})
+				for vi, v := range w.Vals {
+					res := w.DeliverTx(*ctx, []*world.Actor{v.Actor}, &skywaytypes.MsgEstimateBatchGas{Metadata: world.Meta(v.Actor), Nonce: b.BatchNonce, TokenContract: token, EthSigner: e.key(e.current(g, vi)).EthAddr(), Estimate: 21000})
 					if res.Stage == "ante" || res.Stage == "build" {
 						return explore.Failf("harness-estimate", "estimate tx: %v", res.Err)
 					}
@@ -536,7 +614,8 @@ func (e *envA) ops(n *explore.Node) []explore.Op {
 			add(fmt.Sprintf("Confirm(v%d,b%d)", i, b.BatchNonce), false, func(ctx *sdk.Context, g *ghostA) *explore.Fail {
 				// what the chain asks the validator to sign: the stored BytesToSign
 				hx := hex.EncodeToString(b.BytesToSign)
-				res := w.DeliverTx(*ctx, []*world.Actor{v.Actor}, &skywaytypes.MsgConfirmBatch{Nonce: b.BatchNonce, TokenContract: token, EthSigner: v.EthAddr(), Orchestrator: v.Addr.String(), Signature: world.SignCheckpoint(v, b.BytesToSign), Metadata: world.Meta(v.Actor)})
+				kid := e.current(g, i) // the validator signs with the key it has registered now
+				res := w.DeliverTx(*ctx, []*world.Actor{v.Actor}, &skywaytypes.MsgConfirmBatch{Nonce: b.BatchNonce, TokenContract: token, EthSigner: e.key(kid).EthAddr(), Orchestrator: v.Addr.String(), Signature: world.SignCheckpoint(e.key(kid), b.BytesToSign), Metadata: world.Meta(v.Actor)})
 				if res.Stage == "ante" || res.Stage == "build" {
 					return explore.Failf("harness-confirm", "confirm tx: %v", res.Err)
 				}
@@ -548,10 +627,10 @@ func (e *envA) ops(n *explore.Node) []explore.Op {
 				// the signature is public from now on
 				have := false
 				for _, j := range g.Signed[hx] {
-					have = have || j == i
+					have = have || j == kid
 				}
 				if !have {
-					g.Signed[hx] = append(g.Signed[hx], i)
+					g.Signed[hx] = append(g.Signed[hx], kid)
 					sort.Ints(g.Signed[hx])
 				}
 				return nil
@@ -572,17 +651,49 @@ func (e *envA) ops(n *explore.Node) []explore.Op {
 			return nil
 		})
 	}
+	// key rotation: the validator re-registers with its second key for the chain
+	// (live registry changes at once; the valset snapshot is not rebuilt by any
+	// operation of this scenario)
+	nrot := 0
+	for _, r := range g0.Rot {
+		if r {
+			nrot++
+		}
+	}
+	for i, v := range w.Vals {
+		if g0.Rot[i] || nrot >= e.maxRot {
+			continue
+		}
+		i, v := i, v
+		add(fmt.Sprintf("Rotate(v%d)", i), false, func(ctx *sdk.Context, g *ghostA) *explore.Fail {
+			k2 := e.keys[len(w.Vals)+i]
+			res := w.DeliverTx(*ctx, []*world.Actor{v.Actor}, &vtypes.MsgAddExternalChainInfoForValidator{Metadata: world.Meta(v.Actor), ChainInfos: []*vtypes.ExternalChainInfo{{
+				ChainType: "evm", ChainReferenceID: ref, Address: k2.EthAddr(), Pubkey: ethcommon.HexToAddress(k2.EthAddr()).Bytes(),
+			}}})
+			if res.Stage == "ante" || res.Stage == "build" || res.Stage == "validate" {
+				return explore.Failf("harness-rotate", "rotation tx failed in %s: %v", res.Stage, res.Err)
+			}
+			if !res.OK() {
+				counters["A_rotations_rejected"]++
+				return nil
+			}
+			// the live registry must now name the second key
+			a, found, err := w.App.EvmKeeper.GetEthAddressByValidator(*ctx, v.ValAddr, ref)
+			if err != nil || !found || !strings.EqualFold(a.GetAddress().Hex(), k2.EthAddr()) {
+				return explore.Failf("harness-rotate", "registry does not show the second key of v%d after rotation (%v %v)", i, found, err)
+			}
+			g.Rot[i] = true
+			counters["A_rotations"]++
+			return nil
+		})
+	}
 	// evidence
 	for _, by := range e.submitters {
 		for _, ec := range e.evidenceCases(g0) {
 			for _, si := range ec.signers {
 				by, ec, si := by, ec, si
-				signer := e.outsider
-				name := "outsider"
-				if si >= 0 {
-					signer = w.Vals[si]
-					name = fmt.Sprintf("v%d", si)
-				}
+				signer := e.key(si)
+				name := e.keyName(si)
 				add(fmt.Sprintf("Evidence(%s,%s,sig=%s)", by.Name, ec.tag, name), true, func(ctx *sdk.Context, g *ghostA) *explore.Fail {
 					subj, err := codectypes.NewAnyWithValue(ec.subject)
 					must(err)
@@ -606,7 +717,13 @@ func (e *envA) ops(n *explore.Node) []explore.Op {
 					if published {
 						kind = "published"
 					}
-					cases[fmt.Sprintf("A|%s|fab=%v|signer-is-validator=%v|accepted=%v|newly=%v|before=%s", kind, ec.fab, si >= 0, res.OK(), newly, flagString(before))] = struct{}{}
+					keyKind := "never-registered"
+					if e.registeredOwner(g, si) >= 0 {
+						keyKind = "registered"
+					} else if si >= 0 {
+						keyKind = "abandoned"
+					}
+					cases[fmt.Sprintf("A|%s|fab=%v|key=%s|accepted=%v|newly=%v|before=%s", kind, ec.fab, keyKind, res.OK(), newly, flagString(before))] = struct{}{}
 					if ec.fab {
 						counters["A_evidence_fabricated_subject"]++
 						kind = "fab-" + kind
@@ -632,10 +749,19 @@ func (e *envA) ops(n *explore.Node) []explore.Op {
 						return nil
 					}
 					counters["A_evidence_over_unpublished"]++
+					// only the validator that has this key registered NOW may be jailed
+					owner := e.registeredOwner(g, si)
 					for _, nj := range newly {
-						if nj != name {
-							return explore.Failf("A-unpublished-jails-nonsigner", "evidence over the never-published checkpoint %s signed by %s jailed %v", ec.tag, name, newly)
+						if owner >= 0 && nj == fmt.Sprintf("v%d", owner) {
+							continue
 						}
+						if si >= 0 && nj == fmt.Sprintf("v%d", si%len(w.Vals)) {
+							return explore.Failf("A-abandoned-key-jails", "evidence over the never-issued checkpoint %s signed with key %s, which %s does not have registered (live registry: %s), jailed %v", ec.tag, name, nj, e.keyName(e.current(g, si%len(w.Vals))), newly)
+						}
+						return explore.Failf("A-unpublished-jails-nonsigner", "evidence over the never-published checkpoint %s signed by %s jailed %v", ec.tag, name, newly)
+					}
+					if owner < 0 && si >= 0 {
+						counters["A_evidence_with_unregistered_validator_key"]++
 					}
 					if len(newly) == 1 {
 						counters["A_unpublished_evidence_jailed"]++
@@ -694,12 +820,31 @@ type envB struct {
 	stakes    []int64
 	name      string
 	maxResubs int
+	nMem      int // snapshot members are w.Vals[:nMem]; w.Vals[nMem] is vx
+	outsider  int // 0: vx never attests, 1: only first, 2: at any position
 }
 
 func specB(r *report.Run, name string, stakesB []int64) explore.Spec {
-	w := world.New(world.Config{Stakes: world.StakesOf(stakesB...), Users: []string{"U1"}, Height: 101})
+	// the last validator (stake 1 000 000, "vx") is bonded but has no account on
+	// the chain, so it is not part of the valset snapshot: a bonded validator
+	// OUTSIDE the snapshot whose evidence the chain accepts all the same
+	nMem := len(stakesB)
+	w := world.New(world.Config{Stakes: world.StakesOf(append(append([]int64{}, stakesB...), 1_000_000)...), Users: []string{"U1"}, Height: 101})
 	ctx := w.Root
-	must(w.StdChain(ctx, ref))
+	// world.StdChain, minus the chain account of vx
+	must(w.AddChain(ctx, ref, 1, 1))
+	for _, v := range w.Vals[:nMem] {
+		must(w.RegisterAccounts(ctx, v, nil, ref))
+		must(w.SetFee(ctx, v, ref, "1.0"))
+	}
+	snap0, err := w.Snapshot(ctx)
+	must(err)
+	if snap0 == nil {
+		panic("snapshot not worthy")
+	}
+	must(w.App.ValsetKeeper.SetSnapshotOnChain(ctx, snap0.Id, ref))
+	must(w.App.TreasuryKeeper.SetCommunityFundFee(ctx, "0.01"))
+	must(w.App.TreasuryKeeper.SetSecurityFee(ctx, "0.01"))
 	u := w.User("U1")
 	def, _ := json.Marshal(evmtypes.JobDefinition{Address: "0x00000000000000000000000000000000000000cc", ABI: "[]"})
 	pay, _ := json.Marshal(evmtypes.JobPayload{HexPayload: "deadbeef"})
@@ -711,17 +856,33 @@ func specB(r *report.Run, name string, stakesB []int64) explore.Spec {
 	if !ok {
 		panic("consensus module has no end-blocker")
 	}
-	e := &envB{w: w, r: r, queue: world.TurnstoneQueue(ref), user: u, consensu: mod, stakes: stakesB, name: name, bFor: map[int]bool{2: true, len(stakesB) - 1: true}}
+	// e.stakes are SNAPSHOT shares: vx has none
+	e := &envB{w: w, r: r, queue: world.TurnstoneQueue(ref), user: u, consensu: mod, stakes: append(append([]int64{}, stakesB...), 0), name: name, nMem: nMem,
+		bFor: map[int]bool{2: true, nMem - 1: true}}
 	e.maxResubs = 1
+	small := nMem <= 4
+	if small {
+		e.outsider = 2 // vx may attest at any position of the hand-in order
+	}
 	if r.Thorough() {
-		for i := range w.Vals {
+		for i := range w.Vals[:nMem] {
 			e.bFor[i] = true
 		}
-		e.maxResubs = 2
+		if small {
+			e.maxResubs = 2
+		} else {
+			e.outsider = 1 // vx may attest first, before every snapshot member
+		}
+	}
+	if err := w.App.ValsetKeeper.CanAcceptValidator(ctx, w.Vals[nMem].ValAddr); err != nil {
+		panic(fmt.Sprintf("vx cannot act as a pigeon: %v", err))
 	}
 	// cross-check the fractions against the live snapshot
 	snap, err := w.App.ValsetKeeper.GetCurrentSnapshot(ctx)
 	must(err)
+	if _, in := snap.GetValidator(w.Vals[nMem].ValAddr); in {
+		panic("vx is part of the snapshot")
+	}
 	tot := int64(0)
 	for _, s := range stakesB {
 		tot += s
@@ -729,7 +890,7 @@ func specB(r *report.Run, name string, stakesB []int64) explore.Spec {
 	if !snap.TotalShares.Equal(sdkmath.NewInt(tot)) || len(snap.Validators) != len(stakesB) {
 		panic(fmt.Sprintf("snapshot shares %s / %d validators, expected %d / %d", snap.TotalShares, len(snap.Validators), tot, len(stakesB)))
 	}
-	for i, v := range w.Vals {
+	for i, v := range w.Vals[:nMem] {
 		sv, found := snap.GetValidator(v.ValAddr)
 		if !found || !sv.ShareCount.Equal(sdkmath.NewInt(stakesB[i])) {
 			panic(fmt.Sprintf("snapshot share of v%d differs from its stake", i))
@@ -742,6 +903,13 @@ func specB(r *report.Run, name string, stakesB []int64) explore.Spec {
 		},
 		MaxDepth: 13, Deadline: r.Deadline(140*time.Second, 25*time.Minute),
 	}
+}
+
+func (e *envB) vname(i int) string {
+	if i == e.nMem {
+		return "vx"
+	}
+	return fmt.Sprintf("v%d", i)
 }
 
 func (e *envB) message(ctx sdk.Context, id uint64) ctypes.QueuedSignedMessageI {
@@ -809,7 +977,7 @@ func (e *envB) ops(n *explore.Node) []explore.Op {
 	}
 	if !g0.Estimated && g0.Data == "" {
 		add("EstimateQuorum", false, func(ctx *sdk.Context, g *ghostB) *explore.Fail {
-			for _, v := range w.Vals {
+			for _, v := range w.Vals[:e.nMem] {
 				if ok, f := deliver(ctx, v, world.Estimate(v, e.queue, g.MsgID, 21000)); f != nil {
 					return f
 				} else if !ok {
@@ -866,14 +1034,23 @@ func (e *envB) ops(n *explore.Node) []explore.Op {
 			// canonical hand-in order (ascending validator index, each validator
 			// once): the prune-time code reads the evidence as a set
 			later := false
-			for j := i; j < len(w.Vals); j++ {
+			for j := i; j < e.nMem; j++ {
 				later = later || g0.Supplied[j] != ""
+			}
+			if i == e.nMem {
+				// vx, the bonded validator outside the snapshot: its place in the
+				// hand-in order is free (mode 2) or the very first (mode 1)
+				anyMember := false
+				for j := 0; j < e.nMem; j++ {
+					anyMember = anyMember || g0.Supplied[j] != ""
+				}
+				later = g0.Supplied[i] != "" || e.outsider == 0 || e.outsider == 1 && anyMember
 			}
 			if proof == "B" && !e.bFor[i] || later {
 				continue
 			}
 			i, v, proof := i, v, proof
-			add(fmt.Sprintf("Ev(v%d,%s)", i, proof), false, func(ctx *sdk.Context, g *ghostB) *explore.Fail {
+			add(fmt.Sprintf("Ev(%s,%s)", e.vname(i), proof), false, func(ctx *sdk.Context, g *ghostB) *explore.Fail {
 				ok, f := deliver(ctx, v, world.Evidence(v, e.queue, g.MsgID, &evmtypes.SmartContractExecutionErrorProof{ErrorMessage: "boom-" + proof}))
 				if f != nil || !ok {
 					return orHarness(f, "evidence rejected")
@@ -897,7 +1074,7 @@ func (e *envB) ops(n *explore.Node) []explore.Op {
 			}
 			for _, proof := range []string{g0.Supplied[i], other} {
 				i, v, proof := i, v, proof
-				add(fmt.Sprintf("ReEv(v%d,%s)", i, proof), false, func(ctx *sdk.Context, g *ghostB) *explore.Fail {
+				add(fmt.Sprintf("ReEv(%s,%s)", e.vname(i), proof), false, func(ctx *sdk.Context, g *ghostB) *explore.Fail {
 					ok, f := deliver(ctx, v, world.Evidence(v, e.queue, g.MsgID, &evmtypes.SmartContractExecutionErrorProof{ErrorMessage: "boom-" + proof}))
 					if f != nil || !ok {
 						return orHarness(f, "re-submitted evidence rejected")
@@ -926,7 +1103,7 @@ func (e *envB) ops(n *explore.Node) []explore.Op {
 			}
 			if g.Supplied[i] != "" {
 				votes.Add(votes, big.NewInt(e.stakes[i]))
-				sup = append(sup, fmt.Sprintf("v%d:%s", i, g.Supplied[i]))
+				sup = append(sup, fmt.Sprintf("%s:%s", e.vname(i), g.Supplied[i]))
 			}
 		}
 		h := ((mm.GetAddedAtBlockHeight()+300)/50 + 1) * 50
@@ -969,6 +1146,9 @@ func (e *envB) ops(n *explore.Node) []explore.Op {
 		counters["B_prunes_"+e.name]++
 		if len(newly) > 0 {
 			counters["B_prunes_that_jailed"]++
+		}
+		if g.Supplied[e.nMem] != "" {
+			counters["B_prunes_with_evidence_from_outside_the_snapshot"]++
 		}
 		if g.Resubs > 0 {
 			counters["B_prunes_after_resubmission"]++
